@@ -82,7 +82,7 @@ CHECKS = {
                     "that names/spellings come from one helper that capitalises position 0 only.",
             "note": TB + "; itertools.product ordering as documented"},
     "C09": {"engine": "E", "design_ref": "DESIGN.md section 3 C09",
-            "technique": "static analysis: slot completeness and delimiter balance of every folded template (by induction over slot values), string-kind adjacency, re-use of C04/B1 and C02/S1-S2; emitters for free functions / methods / static methods run on sample declarations, emitted lambda checked (names passed are the lambda's own parameters); class block by evaluation (balanced, one statement); docstring literal round trip through a byte-level decoder of C++ narrow literals; wrap_namespace on re-opened namespaces (W6); placement of typedef'd instantiations behind nested namespaces (W18)",
+            "technique": "static analysis: slot completeness and delimiter balance of every folded template (by induction over slot values), string-kind adjacency, re-use of C04/B1 and C02/S1-S2; emitters for free functions / methods / static methods run on sample declarations, emitted lambda checked (names passed are the lambda's own parameters); class block by evaluation (balanced, one statement); docstring literal round trip through a byte-level decoder of C++ narrow literals; wrap_namespace on re-opened namespaces (W6); placement of typedef'd instantiations behind nested namespaces (W18); instantiate_type run on the sample type expressions (W19 = S14; W5 defers to it)",
             "text": "Decides well-formedness conditions of the emitted C++ that are visible in the templates: no "
                     "missing/unused placeholder, balanced delimiters in every literal skeleton, no namespace prefix "
                     "in front of expression text, lambda/keyword arity, no unsubstituted parameter. 'Compiles against "
